@@ -170,9 +170,9 @@ type Notes struct {
 }
 
 type projector struct {
-	a     *App
-	ctx   sdk.Context
-	notes *Notes
+	a       *App
+	ctx     sdk.Context
+	notes   *Notes
 	bdenoms map[string]bool
 }
 
